@@ -30,6 +30,7 @@ EXPLANATION = (
     "splitting or merging struct formats or renaming locals is invisible while a dropped, extra, re-typed, reordered or "
     "mis-bound field is reported by name. Version dispatch is evaluated on the abstract values {0} and >= 2."
 )
+SHARED = [('C07', ['R7'], 'version discovery tries every broker and every bootstrap host whatever the error, and so ends in an answer or in the fallback to version 0')]
 ASSUMPTIONS = ["Kafka protocol guide layouts as transcribed in afkverif/kafka_schema.py (DESIGN.md appendix A)",
                "brokers list ApiVersions entries by ascending key so that table[key] is that key's entry (get_api_version)"]
 KCQ = "kafkacodec:KafkaCodec"
@@ -364,7 +365,7 @@ def run(ctx):
             "legal, distinct value)", where(kinit, kinit.node), "client constructed with clientId='' sends the library default id in every header")
 
     # ---- R4 codec pairing
-    r = ctx.rule("R4", "attribute constant <-> compression function agree on the encoder side and mirror the decoder", 3, "A")
+    r = ctx.rule("R4", "attribute constant <-> compression function agree on the encoder side and mirror the decoder; wrapper format = message format", 4, "A")
     pairs = {"create_gzip_message": ("gzip_encode", "CODEC_GZIP"), "create_snappy_message": ("snappy_encode", "CODEC_SNAPPY")}
     for fn, (comp, const) in sorted(pairs.items()):
         f = ctx.func("kafkacodec:" + fn)
@@ -384,6 +385,26 @@ def run(ctx):
         ns = [n for n in cc.nodes if any(call_name(c) == fn for c in n.calls())]
         ok = ok and len(ns) == 1 and ("codec == %s" % const, True) in fc[ns[0].id]
     r.check(ok, "kafkacodec:create_message_set#dispatch", "codec constant dispatches to the wrong wrapper constructor", where(cms, cms.node))
+    # the wrapper is written in the format of the messages it wraps: the constructor is handed the set builder's `magic`
+    # and stamps it on the wrapper message
+    okw, whyw = True, ""
+    mparam = "magic" if "magic" in cms.params else None
+    for fn in pairs:
+        for n in cc.nodes:
+            for c in n.calls():
+                if call_name(c) != fn:
+                    continue
+                a_ = kwarg(c, "magic", 1)
+                og_ = value_origins(cc, n.id, a_, params=cms.params) if a_ is not None else None
+                if mparam is None or not og_ or not all(isinstance(e_, ast.Name) and e_.id == mparam and d_ == cc.entry.id for d_, e_ in og_):
+                    okw, whyw = False, "%s is not handed the builder's `magic` (got %s)" % (fn, norm(a_) if a_ is not None else "nothing: its default applies")
+        wf = ctx.func("kafkacodec:" + fn)
+        wp = [p_ for p_ in wf.params if p_ == "magic"]
+        for c in calls_in(wf, "Message"):
+            if not (wp and c.args and norm(at(ctx, wf, ctx.cfg(wf).containing(c)[0].id, c.args[0])) == wp[0]):
+                okw, whyw = False, "%s stamps the wrapper message with `%s`, not with its `magic` argument" % (fn, norm(c.args[0]) if c.args else None)
+    r.check(okw, "kafkacodec:create_message_set#wrapper-format", whyw, where(cms, cms.node),
+            "format-1 messages inside a format-0 wrapper: an independent reader rejects the set (magic mismatch), relative offsets are misread")
 
     # ---- R5 order preservation in the set encoder
     r = ctx.rule("R5", "message-set encoder and builder keep list order (no set/sorted/reversed)", 2, "A")
